@@ -439,6 +439,45 @@ def rule_byte_exact(ck):
         ck.ob("C30.byte-exact", pba, c, qs_ is not None and q.dotted(qs_) == pba.params()[1], "the urlencoded parser is given the body itself (no strip/decode before parsing)")
 
 
+def rule_param_exact(ck):
+    """Header parameter values (field names, file names) leave _parse_header exactly as the RFC 2231 / quoted-string
+    decoder produced them, except for one surrounding pair of quotes that was positively tested for."""
+    from ..x_exact import check_exact, slice_delimiters
+    from ..x_resolve import widen_facts, short_circuit_facts, resolve
+    ph = ck.func(HU, "_parse_header")
+    rets = [r for r in q.walk_body(ph.node) if isinstance(r, ast.Return) and r.value is not None]
+    dicts = set()
+    for r in rets:
+        v = resolve(ph, r.value)
+        if not (isinstance(v, ast.Tuple) and len(v.elts) == 2):
+            raise AnalysisError("C30.byte-exact: _parse_header does not return a (key, params) pair (unknown idiom)")
+        d = q.dotted(v.elts[1])
+        if d is None:
+            raise AnalysisError("C30.byte-exact: the parameter dictionary returned by _parse_header is not a variable")
+        dicts.add(d)
+    if len(dicts) != 1:
+        raise AnalysisError("C30.byte-exact: _parse_header returns several dictionaries")
+    D = dicts.pop()
+    mf = must_facts(ph.cfg)
+    pm = q.parent_map(ph.node)
+    sinks = [(nd, st) for nd in ph.cfg.stmt_nodes(lambda n_: n_.kind == "stmt" and isinstance(n_.ast, ast.Assign) and isinstance(n_.ast.targets[0], ast.Subscript) and q.dotted(n_.ast.targets[0].value) == D) for st in [nd.ast]]
+    if not sinks:
+        raise AnalysisError("C30.byte-exact: no store into the parameter dictionary of _parse_header found (built in an unrecognised way)")
+    producers = {"collapse_rfc2231_value": None, "email.utils.collapse_rfc2231_value": None}
+    n = 0
+    for nd, st in sinks:
+        steps = check_exact(ck, "C30.byte-exact", ph, st.value, [], "parameter value returned by _parse_header", passthrough=producers, site=st, at=nd)
+        n += 1
+        for s_ in steps:
+            if s_.kind == "slice":
+                at = s_.at or nd
+                F = widen_facts(ph, set(mf[at.id]) | set(short_circuit_facts(pm, s_.node)))
+                for ok, text in slice_delimiters(ph, s_.node, F):
+                    n += 1
+                    ck.ob("C30.byte-exact", ph, s_.node, ok, "%s: %s" % (q.unparse(s_.node), text))
+    ck.floor("C30.byte-exact", n, 1, "parameter-value obligations in _parse_header")
+
+
 def x_root(e):
     """Root name of a receiver chain like ``arguments.setdefault(name, [])``."""
     while True:
@@ -467,6 +506,7 @@ def run(ck):
     rule_content_encoding(ck)
     ck.rule("C30.byte-exact", "field/file content is cut out of the body only by slices whose bounds are the positions/lengths of the delimiters actually tested (first CRLFCRLF, trailing CRLF), never through strip/replace/decode/join; blank urlencoded values kept")
     rule_byte_exact(ck)
+    rule_param_exact(ck)
 
 
 # ---------------------------------------------------------------------------
@@ -525,6 +565,9 @@ def _hoist_out_of_try(root):
 
 
 MUTANTS = [
+    ("seeded C30-adv5: _parse_header strips quotes with value.strip('\"') (a literal quote at either end of the decoded value is lost)", _h("_parse_header", lambda root: _strip_quotes(root)), "C30.byte-exact"),
+    ("_parse_header: surrounding quotes removed without testing the last character", _h("_parse_header", replace_expr(lambda n: isinstance(n, ast.BoolOp) and "value[-1]" in _src(n), lambda n: ast.BoolOp(op=ast.And(), values=n.values[:2]))), ("C30.byte-exact",)),
+    ("_parse_header: decoded value lower-cased", _h("_parse_header", replace_expr(lambda n: isinstance(n, ast.Call) and q.call_attr(n) == "collapse_rfc2231_value", lambda n: ast.Call(func=ast.Attribute(value=n, attr="lower", ctx=ast.Load()), args=[], keywords=[]))), "C30.byte-exact"),
     ("seeded C30-adv4: multipart handler narrowed to (HTTPInputError, ValueError, LookupError): TypeError from decode_params escapes", _h(PBA, lambda root: _narrow_to(root, 1, "(HTTPInputError, ValueError, LookupError)")), "C30.only-input-error"),
     ("seeded C30-adv3: parts split with maxsplit = config.max_parts - 1 (the count can never exceed the limit)", _h(PMF, replace_expr(lambda n: isinstance(n, ast.Call) and q.call_attr(n) == "split" and "boundary" in _src(n), lambda n: ast.Call(func=n.func, args=n.args + [parse_expr("config.max_parts - 1")], keywords=[]))), ("C30.limits", "C30.byte-exact")),
     ("limits: parts split with a hard-coded maxsplit=1000", _h(PMF, replace_expr(lambda n: isinstance(n, ast.Call) and q.call_attr(n) == "split" and "boundary" in _src(n), lambda n: ast.Call(func=n.func, args=n.args, keywords=[ast.keyword(arg="maxsplit", value=ast.Constant(value=1000))]))), ("C30.limits", "C30.byte-exact")),
@@ -580,4 +623,15 @@ def _narrow_to(root, which, to):
                 node.type = parse_expr(to)
                 return True
             k += 1
+    return False
+
+
+def _strip_quotes(root):
+    for node in ast.walk(root):
+        if isinstance(node, ast.For):
+            for i, st in enumerate(node.body):
+                if isinstance(st, ast.If) and "value[0]" in _src(st.test) and i + 1 < len(node.body) and isinstance(node.body[i + 1], ast.Assign):
+                    tgt = node.body[i + 1].targets[0]
+                    node.body[i:i + 2] = [ast.Assign(targets=[tgt], value=parse_expr("value.strip('\"')"))]
+                    return True
     return False
